@@ -203,6 +203,20 @@ def _task(task):
         nb = rng.integers(0, 6, size=n)
         with np.errstate(all="ignore"):
             im = np.where(nb == 0, np.nextafter(im, f.ftype(np.inf)), np.where(nb == 1, np.nextafter(im, f.ftype(-np.inf)), im)).astype(f.ftype)
+    elif kind == "expwin":
+        # one component within a few units of +-log(largest), +-log(largest)/2, log(smallest) (where exp / cosh-type
+        # intermediates over- or underflow while the result may still be representable), the other one an angle in any
+        # quadrant or any float
+        L = float(np.log(float(f.largest)))
+        S = float(np.log(float(f.smallest_normal)))
+        anchors = np.array([L, -L, L / 2, -L / 2, S, S - float(f.p) * 0.6931, 2 * L])
+        a = (anchors[rng.integers(0, len(anchors), size=n)] + rng.uniform(-3, 3, size=n)).astype(f.ftype)
+        ang = rng.uniform(-8, 8, size=n).astype(f.ftype)
+        g1v = flt.random_bits_floats(rng, n, f)
+        b = np.where(rng.random(n) < 0.7, ang, g1v).astype(f.ftype)
+        swap = rng.random(n) < 0.3
+        re = np.where(swap, b, a).astype(f.ftype)
+        im = np.where(swap, a, b).astype(f.ftype)
     elif kind == "pool":
         pool = pool_values(f)
         a = pool[rng.integers(0, len(pool), size=n)]
@@ -250,7 +264,7 @@ def run(ctx):
     ctx.rule = (
         "complex64 and complex128 inputs from: G1 uniform over bit patterns of both components, G2 components log-uniform in 2^-12..2^12, "
         "the full special-value lattice^2 (+-0 kept distinct, subnormals, +-1, +-largest, +-inf, +-1..3 ULP neighbours), both axes "
-        "(re=+-0 / im=+-0) crossed with the threshold pool read out of the graphs, pool x random mixes, and the diagonals |re| == |im| with 1-ULP neighbours; identities: conj (14 functions, "
+        "(re=+-0 / im=+-0) crossed with the threshold pool read out of the graphs, pool x random mixes, the diagonals |re| == |im| with 1-ULP neighbours, and windows of a few units around +-log(largest), +-log(largest)/2, log(smallest) in one component with an angle in the other; identities: conj (14 functions, "
         "im != 0), odd (asin, asinh, atan, atanh; off the axis carrying the cut), even (square), asinh=-i asin(iz), atan=-i atanh(iz), "
         "acosh=+-i acos, imag acos=-imag asin; real asin/asinh odd and square even. Comparison of bit patterns with NaNs identified. "
         "Non-trivial = input without zero component whose asin value is finite and non-zero; distinct by input bits."
@@ -260,7 +274,7 @@ def run(ctx):
     for fb in (32, 64):
         n = 120000 if q else 6000000
         sh = 2 if q else 16
-        for kind in ("G1", "G2", "pool", "diag"):
+        for kind in ("G1", "G2", "pool", "diag", "expwin"):
             for s in range(sh):
                 tasks.append((fb, kind, n // sh, (ctx.seed, 3, fb, s, len(kind))))
         tasks.append((fb, "lattice", 0, (0,)))
